@@ -55,12 +55,13 @@ KNOWN_ENTRY = {
 HEADER = recon.RECON_HEADER + """From Coq Require Import QArith.
 From SR Require Import Model.Branches Model.Layout.
 Definition r4 := (Q * Q * Q * Q)%type.
-Definition show_r (r : rect) : r4 := (rx r, ry r, rw r, rh r).
+Definition show_r (r : rect) : r4 := (Qred (rx r), Qred (ry r), Qred (rw r), Qred (rh r)).
+Definition show_p (p : Q * Q) : Q * Q := (Qred (fst p), Qred (snd p)).
 Definition nat_of_kind (k : kind) : nat := match k with KLeaf => 0 | KSpe => 1 | KDup => 2 | KTr => 3 | KLoss => 4 end.
 Definition showb := (anchor * nat * r4 * (Q * Q) * (Q * Q) * (Q * Q) * (Q * Q))%type.
-Definition show_d (d : dbranch) : showb := (d_id d, nat_of_kind (d_kind d), show_r (d_rect d), d_parent d, d_left d, d_right d, d_child d).
+Definition show_d (d : dbranch) : showb := (d_id d, nat_of_kind (d_kind d), show_r (d_rect d), show_p (d_parent d), show_p (d_left d), show_p (d_right d), show_p (d_child d)).
 Definition shows := (r4 * r4 * Q * list (anchor * (Q * Q)) * list showb)%type.
-Definition show_s (s : sublayout) : shows := (show_r (l_rect s), show_r (l_trunk s), l_fork s, l_anchors s, map show_d (l_branches s)).
+Definition show_s (s : sublayout) : shows := (show_r (l_rect s), show_r (l_trunk s), Qred (l_fork s), map (fun e => (fst e, show_p (snd e))) (l_anchors s), map show_d (l_branches s)).
 Definition out14 := option (list shows).
 Definition mkP (a b c d e : Q) : params := {| pad := a; gsp := b; ovh := c; mss := d; lsp := e |}.
 Definition run14 (x : bool * params * stree * rtree * list (Q * Q)) : out14 :=
